@@ -1,11 +1,12 @@
 CONSTANTS RepointRoles <- AllRoles
  MaxEdits = 2
  MaxEditsFile = 2
- InsertFront = TRUE
+ Wide = TRUE
  NewNames <- NamesThorough
  OpKinds <- AllOpKinds
  ProgIds <- AllProgs
  SimMode = FALSE
+ LoopVarByName = FALSE
 INIT Init
 NEXT Next
 INVARIANT InvAll
